@@ -755,9 +755,11 @@ class SubprocessProxy:
                                       os.strerror(errno.EACCES), prog)
             raise FileNotFoundError(errno.ENOENT,
                                     os.strerror(errno.ENOENT), prog)
-        rc, out = entry
-        return Completed(argv, rc, out if capture_output or
-                         kw.get("stdout") is not None else None)
+        rc, out = entry[0], entry[1]
+        err = entry[2] if len(entry) > 2 else ""
+        keep = capture_output or kw.get("stdout") is not None
+        return Completed(argv, rc, out if keep else None,
+                         err if keep else None)
 
     def run(self, cmd, **kw):
         kw.pop("encoding", None)
@@ -789,29 +791,141 @@ class SubprocessProxy:
     def Popen(self, cmd, **kw):
         kw.pop("encoding", None)
         kw.pop("text", None)
-        r = self._spawn("Popen", cmd, **{k: v for k, v in kw.items()
-                                         if k in ("cwd", "stdout")})
+        want_out = kw.get("stdout") == self.PIPE
+        want_err = kw.get("stderr") == self.PIPE
+        r = self._spawn("Popen", cmd, capture_output=True,
+                        **{k: v for k, v in kw.items() if k in ("cwd",)})
+        return SimProcess(self.w, r, want_out, want_err)
 
-        class P:
-            returncode = r.returncode
-            stdout = io.StringIO(r.stdout or "")
-            stderr = io.StringIO("")
 
-            def wait(self, *a, **k):
-                return r.returncode
+PIPE_CAPACITY = 65536
 
-            def communicate(self, *a, **k):
-                return (r.stdout, "")
 
-            def poll(self):
-                return r.returncode
+class SimDeadlock(BaseException):
+    """the simulated child process and the interpreter wait for each other
+    forever (reported like any other non-termination)"""
 
-            def __enter__(self):
-                return self
 
-            def __exit__(self, *a):
-                return False
-        return P()
+class SimPipe:
+    """the read end of a pipe to the simulated child.  The child produces
+    its stdout and stderr and then exits; it blocks while a pipe it writes
+    to is full.  Reading one pipe to EOF therefore never returns while the
+    other one holds more than a pipe buffer of undrained data."""
+
+    def __init__(self, proc, name, data):
+        self.proc = proc
+        self.name = name
+        self.data = data or ""
+        self.pos = 0
+        self.closed = False
+
+    def pending(self):
+        return len(self.data) - self.pos
+
+    def _to_eof(self):
+        self.proc.check_blocked(reading=self)
+        out = self.data[self.pos:]
+        self.pos = len(self.data)
+        return out
+
+    def read(self, n=-1):
+        if n is None or n < 0:
+            return self._to_eof()
+        out = self.data[self.pos:self.pos + n]
+        self.pos += len(out)
+        if not out:
+            self.proc.check_blocked(reading=self)
+        return out
+
+    def readline(self):
+        i = self.data.find("\n", self.pos)
+        if i == -1:
+            if self.pos >= len(self.data):
+                self.proc.check_blocked(reading=self)
+                return ""
+            return self._to_eof()
+        out = self.data[self.pos:i + 1]
+        self.pos = i + 1
+        return out
+
+    def readlines(self):
+        return self._to_eof().splitlines(keepends=True)
+
+    def __iter__(self):
+        while True:
+            ln = self.readline()
+            if not ln:
+                return
+            yield ln
+
+    def close(self):
+        self.closed = True
+
+    def __enter__(self):
+        return self
+
+    def __exit__(self, *a):
+        self.close()
+        return False
+
+
+class SimProcess:
+    def __init__(self, world, completed, want_out, want_err):
+        self.w = world
+        self.args = completed.args
+        self._rc = completed.returncode
+        self.returncode = None
+        self.pid = 4242
+        self.stdout = SimPipe(self, "stdout", completed.stdout) \
+            if want_out else None
+        self.stderr = SimPipe(self, "stderr", completed.stderr) \
+            if want_err else None
+
+    def check_blocked(self, reading=None):
+        """would the child be stuck writing to a full pipe nobody reads?"""
+        for p in (self.stdout, self.stderr):
+            if p is None or p is reading or p.closed:
+                continue
+            if p.pending() > PIPE_CAPACITY:
+                self.w.log("proc", "deadlock", p.name, p.pending())
+                raise SimDeadlock(
+                    f"child blocked on its full {p.name} pipe "
+                    f"({p.pending()} bytes undrained) while the "
+                    "interpreter waits for it")
+
+    def wait(self, timeout=None):
+        self.check_blocked()
+        self.returncode = self._rc
+        return self._rc
+
+    def poll(self):
+        self.returncode = self._rc
+        return self._rc
+
+    def communicate(self, input=None, timeout=None):
+        out = self.stdout.data[self.stdout.pos:] if self.stdout else None
+        err = self.stderr.data[self.stderr.pos:] if self.stderr else None
+        if self.stdout:
+            self.stdout.pos = len(self.stdout.data)
+        if self.stderr:
+            self.stderr.pos = len(self.stderr.data)
+        self.returncode = self._rc
+        return (out, err)
+
+    def kill(self):
+        self.returncode = -9
+
+    terminate = kill
+
+    def __enter__(self):
+        return self
+
+    def __exit__(self, *a):
+        for p in (self.stdout, self.stderr):
+            if p is not None:
+                p.close()
+        self.wait()
+        return False
 
 
 class ConsoleProxy:
